@@ -14,7 +14,16 @@
 //         Output: <number of samples> <uniforms consumed> <all samples inside the domain> <det>
 //   law   <kind> <target> <seed> <n> ...   (many samples in one line, for the distributional tests)
 //   lawh  <seed> <nstate> w.. <K> op_1 .. op_K law <kind> ...   the same after a history of K other calls in the process
+//   seqh  (syntax of seqn)  HISTORY AGAINST PRISTINE PROCESSES: the K calls are made one after the other in a process that has
+//         not called the library before (forked from the pristine server started by main()); then EVERY call is made once
+//         more, alone, in another pristine process, from the states the two generators had in front of it in the history.
+//         Output: the seqn output of the history, then  FRESH <K> f_1 .. f_K  with f_j = 1 iff the pristine process
+//         returned the same values and left both generators in the same states as the call in the history (0: differs,
+//         2: the pristine process was terminated), then for every f_j != 1:  DIFF <j> <g equal> <h equal> <n> <the n value
+//         tokens of the pristine process>   or   DIFF <j> STATUS <word>.
 #include "common.hpp"
+#include <sys/socket.h>
+#include <cerrno>
 #include "libphysica/Statistics.hpp"
 #include <random>
 #include <sstream>
@@ -309,6 +318,322 @@ static Op parse_op(vh::Reader& r, std::shared_ptr<Nest> nest = nullptr)
 	_exit(77);
 }
 
+struct OpRec
+{
+	std::string text, gb, hb, vals, ga, ha;	  // the call, generator states before, values printed, states after
+};
+static std::string ser(const std::mt19937& g)
+{
+	std::ostringstream os;
+	os << g;
+	return os.str();
+}
+// seq / seqn: the K calls, twice from equal generator states (recs: what run 1 saw around every call)
+static void run_seq(vh::Reader& r, vh::Out& o, bool two, std::vector<OpRec>* recs)
+{
+		std::mt19937 g0 = make_gen(r);
+		long N			= r.integer();
+		for(long k = 0; k < N; k++)
+			r.word();	// the uniforms are for the model
+		std::mt19937 h0(12345u);
+		if(two)
+		{
+			h0		= std::mt19937((std::mt19937::result_type) std::strtoul(r.word().c_str(), nullptr, 10));
+			long N2 = r.integer();
+			for(long k = 0; k < N2; k++)
+				r.word();
+		}
+		long K = r.integer();
+		std::vector<Op> ops;
+		if(recs)
+			recs->resize((size_t) K);
+		for(long k = 0; k < K; k++)
+		{
+			size_t i0 = r.i;
+			ops.push_back(parse_op(r));
+			if(recs)
+				for(size_t q = i0; q < r.i; q++)
+					(*recs)[(size_t) k].text += (q > i0 ? " " : "") + r.t[q];
+		}
+		std::mt19937 g1 = g0, g2 = g0, h1 = h0, h2 = h0;
+		vh::Out o2;
+		Rec rec;
+		rec.G		  = &g1;
+		rec.H		  = &h1;
+		rec.tg.shadow = g0;
+		rec.th.shadow = h0;
+		Ctx c1 {&g1, &h1, &rec}, c2 {&g2, &h2, nullptr};
+		Sink s1 {&o, {}}, s2 {&o2, {}};
+		for(auto& f : ops)
+		{
+			size_t k = (size_t)(&f - &ops[0]);
+			size_t p0 = 0;
+			if(recs)
+			{
+				(*recs)[k].gb = ser(g1);
+				(*recs)[k].hb = ser(h1);
+				p0			  = o.s.str().size();
+			}
+			f(c1, s1);
+			if(recs)
+			{
+				std::string v = o.s.str().substr(p0);
+				if(!v.empty() && v[0] == ' ')
+					v.erase(0, 1);
+				(*recs)[k].vals = v;
+				(*recs)[k].ga	= ser(g1);
+				(*recs)[k].ha	= ser(h1);
+			}
+		}
+		for(auto& f : ops)
+			f(c2, s2);
+		bool same = (o.s.str() == o2.s.str()) && (g1 == g2) && (h1 == h2);
+		long d	  = raw_distance(g0, g1);
+		o.i(d >= 0 && d % 2 == 0 ? d / 2 : -1);
+		if(two)
+		{
+			long d2 = raw_distance(h0, h1);
+			o.i(d2 >= 0 && d2 % 2 == 0 ? d2 / 2 : -1);
+		}
+		o.i(same ? 1 : 0);
+		if(two)
+		{
+			o.i(rec.nev);
+			o.i((long) rec.first.size());
+			for(long p : rec.first)
+				o.i(p);
+		}
+		o.i((long) g1());
+		if(two)
+			o.i((long) h1());
+	}
+
+// ---------- pristine-process server (as in harness/C06.cpp) ----------
+// Started by main() before any library function has run.  A request "<id> H <seqn case>" is answered by a process forked
+// from the server (no library function has been called in it) that runs the case like seqn and replies
+// "<id> OK <seqn output> | call_1 | g before | h before | values | g after | h after | call_2 ...";  a request
+// "<id> F <g state> | <h state> | <call>" by a pristine process that makes the one call from these generator states and
+// replies "<id> OK <values> | <g after> | <h after>".  When the library ends the process the reply is "<id> EXIT"
+// (TIMEOUT, CRASH sig=n, SANITIZER n).
+static int g_srv = -1;
+struct LineReader
+{
+	std::string buf;
+	size_t pos = 0;
+	bool line(int fd, std::string& l)
+	{
+		l.clear();
+		for(;;)
+		{
+			size_t nl = buf.find('\n', pos);
+			if(nl != std::string::npos)
+			{
+				l	= buf.substr(pos, nl - pos);
+				pos = nl + 1;
+				if(pos > (1u << 20))
+				{
+					buf.erase(0, pos);
+					pos = 0;
+				}
+				return true;
+			}
+			char tmp[65536];
+			ssize_t n = read(fd, tmp, sizeof tmp);
+			if(n == 0)
+				return false;
+			if(n < 0)
+			{
+				if(errno == EINTR)
+					continue;
+				return false;
+			}
+			buf.append(tmp, (size_t) n);
+		}
+	}
+};
+static LineReader g_lr;
+static void write_all(int fd, const std::string& s)
+{
+	size_t k = 0;
+	while(k < s.size())
+	{
+		ssize_t n = write(fd, s.data() + k, s.size() - k);
+		if(n <= 0)
+		{
+			if(n < 0 && errno == EINTR)
+				continue;
+			return;
+		}
+		k += (size_t) n;
+	}
+}
+static std::vector<std::string> split_bar(const std::string& s)
+{
+	std::vector<std::string> v;
+	size_t p = 0;
+	for(;;)
+	{
+		size_t q = s.find(" | ", p);
+		if(q == std::string::npos)
+		{
+			v.push_back(s.substr(p));
+			return v;
+		}
+		v.push_back(s.substr(p, q - p));
+		p = q + 3;
+	}
+}
+static std::mt19937 deser(const std::string& s)
+{
+	std::mt19937 g;
+	std::istringstream is(s);
+	is >> g;
+	return g;
+}
+static void start_server()
+{
+	int sv[2];
+	if(socketpair(AF_UNIX, SOCK_STREAM, 0, sv) != 0)
+		return;
+	fflush(stdout);
+	fflush(stderr);
+	pid_t pid = fork();
+	if(pid != 0)
+	{
+		close(sv[1]);
+		g_srv = sv[0];
+		return;
+	}
+	close(sv[0]);
+	signal(SIGPIPE, SIG_IGN);
+	int fd = sv[1];
+	std::string l;
+	LineReader lr;
+	while(lr.line(fd, l))
+	{
+		size_t sp1 = l.find(' ');
+		if(sp1 == std::string::npos || sp1 + 3 > l.size())
+			continue;
+		std::string id = l.substr(0, sp1);
+		char mode	   = l[sp1 + 1];
+		std::string payload = l.substr(sp1 + 3);
+		pid_t g = fork();
+		if(g == 0)
+		{
+			int nul = open("/dev/null", O_WRONLY);
+			dup2(nul, 1);
+			dup2(nul, 2);
+			alarm(20);
+			std::string reply;
+			if(mode == 'H')
+			{
+				vh::Reader r(payload);
+				vh::Out o;
+				std::vector<OpRec> recs;
+				run_seq(r, o, true, &recs);
+				reply = o.s.str();
+				for(auto& c : recs)
+					reply += " | " + c.text + " | " + c.gb + " | " + c.hb + " | " + c.vals + " | " + c.ga + " | " + c.ha;
+			}
+			else
+			{
+				std::vector<std::string> p = split_bar(payload);
+				if(p.size() != 3)
+					_exit(77);
+				std::mt19937 gg = deser(p[0]), hh = deser(p[1]);
+				vh::Reader r(p[2]);
+				Op f = parse_op(r);
+				vh::Out o;
+				Ctx c {&gg, &hh, nullptr};
+				Sink s {&o, {}};
+				f(c, s);
+				reply = o.s.str() + " | " + ser(gg) + " | " + ser(hh);
+			}
+			write_all(fd, id + " OK " + reply + "\n");
+			_exit(0);
+		}
+		int st = 0;
+		waitpid(g, &st, 0);
+		if(WIFEXITED(st) && WEXITSTATUS(st) == 0)
+			continue;
+		std::string why;
+		if(WIFEXITED(st) && (WEXITSTATUS(st) == 99 || WEXITSTATUS(st) == 98))
+			why = "SANITIZER " + std::to_string(WEXITSTATUS(st));
+		else if(WIFEXITED(st) && WEXITSTATUS(st) == 77)
+			why = "HARNESSERR";
+		else if(WIFEXITED(st))
+			why = "EXIT";
+		else if(WIFSIGNALED(st) && WTERMSIG(st) == SIGALRM)
+			why = "TIMEOUT";
+		else
+			why = "CRASH sig=" + std::to_string(WIFSIGNALED(st) ? WTERMSIG(st) : 0);
+		write_all(fd, id + " " + why + "\n");
+	}
+	_exit(0);
+}
+static std::string ask_server(char mode, const std::string& payload)
+{
+	static long counter = 0;
+	if(g_srv < 0)
+		return "HARNESSERR no_server";
+	std::string id = std::to_string((long) getpid()) + "." + std::to_string(++counter);
+	write_all(g_srv, id + " " + std::string(1, mode) + " " + payload + "\n");
+	std::string l;
+	while(g_lr.line(g_srv, l))
+	{
+		// replies to requests of a worker that died meanwhile are skipped
+		if(l.compare(0, id.size() + 1, id + " ") == 0)
+			return l.substr(id.size() + 1);
+	}
+	return "HARNESSERR server_gone";
+}
+static void run_seqh(vh::Reader& r, vh::Out& o)
+{
+	std::string rest;
+	for(size_t q = r.i; q < r.t.size(); q++)
+		rest += (q > r.i ? " " : "") + r.t[q];
+	std::string hist = ask_server('H', rest);
+	if(hist.compare(0, 3, "OK ") != 0)
+	{
+		o.w(hist);	 // EXIT, TIMEOUT, CRASH sig=n, SANITIZER n
+		return;
+	}
+	std::vector<std::string> p = split_bar(hist.substr(3));
+	o.w(p[0]);
+	size_t K = (p.size() - 1) / 6;
+	o.w("FRESH");
+	o.i((long) K);
+	std::vector<std::string> diffs;
+	for(size_t j = 0; j < K; j++)
+	{
+		const std::string *text = &p[1 + 6 * j], *gb = text + 1, *hb = text + 2, *vals = text + 3, *ga = text + 4, *ha = text + 5;
+		std::string fr = ask_server('F', *gb + " | " + *hb + " | " + *text);
+		if(fr.compare(0, 3, "OK ") != 0)
+		{
+			o.i(2);
+			vh::Reader w(fr);
+			diffs.push_back("DIFF " + std::to_string(j) + " STATUS " + (w.t.empty() ? std::string("?") : w.t[0]));
+			continue;
+		}
+		std::vector<std::string> q = split_bar(fr.substr(3));
+		if(q.size() != 3)
+		{
+			o.i(2);
+			diffs.push_back("DIFF " + std::to_string(j) + " STATUS HARNESSERR");
+			continue;
+		}
+		bool same = (q[0] == *vals && q[1] == *ga && q[2] == *ha);
+		o.i(same ? 1 : 0);
+		if(!same)
+		{
+			vh::Reader w(q[0]);
+			diffs.push_back("DIFF " + std::to_string(j) + " " + (q[1] == *ga ? "1" : "0") + " " + (q[2] == *ha ? "1" : "0") + " " + std::to_string(w.t.size()) + (w.t.empty() ? "" : " ") + q[0]);
+		}
+	}
+	for(auto& d : diffs)
+		o.w(d);
+}
+
 // A mutated sampler that never terminates would cost the full per-case limit on every case: timeouts are counted in
 // a side file (the worker is killed, so it records the event in its SIGALRM handler and re-raises), and after the
 // third one the limits shrink (ordinary cases take milliseconds).
@@ -343,60 +668,14 @@ static void handler(vh::Reader& r, vh::Out& o)
 	std::string kind = r.word();
 	if(kind == "law" || kind == "lawh")
 		set_limit(30.0, 3.0);
+	else if(kind == "seqh")
+		set_limit(60.0, 30.0);
 	else
 		set_limit(4.0, 0.5);
 	if(kind == "seq" || kind == "seqn")
-	{
-		bool two		= (kind == "seqn");
-		std::mt19937 g0 = make_gen(r);
-		long N			= r.integer();
-		for(long k = 0; k < N; k++)
-			r.word();	// the uniforms are for the model
-		std::mt19937 h0(12345u);
-		if(two)
-		{
-			h0		= std::mt19937((std::mt19937::result_type) std::strtoul(r.word().c_str(), nullptr, 10));
-			long N2 = r.integer();
-			for(long k = 0; k < N2; k++)
-				r.word();
-		}
-		long K = r.integer();
-		std::vector<Op> ops;
-		for(long k = 0; k < K; k++)
-			ops.push_back(parse_op(r));
-		std::mt19937 g1 = g0, g2 = g0, h1 = h0, h2 = h0;
-		vh::Out o2;
-		Rec rec;
-		rec.G		  = &g1;
-		rec.H		  = &h1;
-		rec.tg.shadow = g0;
-		rec.th.shadow = h0;
-		Ctx c1 {&g1, &h1, &rec}, c2 {&g2, &h2, nullptr};
-		Sink s1 {&o, {}}, s2 {&o2, {}};
-		for(auto& f : ops)
-			f(c1, s1);
-		for(auto& f : ops)
-			f(c2, s2);
-		bool same = (o.s.str() == o2.s.str()) && (g1 == g2) && (h1 == h2);
-		long d	  = raw_distance(g0, g1);
-		o.i(d >= 0 && d % 2 == 0 ? d / 2 : -1);
-		if(two)
-		{
-			long d2 = raw_distance(h0, h1);
-			o.i(d2 >= 0 && d2 % 2 == 0 ? d2 / 2 : -1);
-		}
-		o.i(same ? 1 : 0);
-		if(two)
-		{
-			o.i(rec.nev);
-			o.i((long) rec.first.size());
-			for(long p : rec.first)
-				o.i(p);
-		}
-		o.i((long) g1());
-		if(two)
-			o.i((long) h1());
-	}
+		run_seq(r, o, kind == "seqn", nullptr);
+	else if(kind == "seqh")
+		run_seqh(r, o);
 	else if(kind == "mgrid")
 	{
 		unsigned long seed = std::strtoul(r.word().c_str(), nullptr, 10);
@@ -551,7 +830,10 @@ int main(int argc, char** argv)
 		g_tofile = std::string(argv[2]) + ".to";
 		unlink(g_tofile.c_str());
 	}
+	start_server();	  // before any library function runs
 	int rc = vh::run(argc, argv, handler, 120);
+	if(g_srv >= 0)
+		close(g_srv);
 	unlink(g_tofile.c_str());
 	return rc;
 }
